@@ -125,6 +125,20 @@ var OtherIA = addr.MustParseIA("2-ff00:0:999")
 // MACed with its real hop key along a correct accumulator chain, and all
 // timestamps fresh relative to now (seconds).
 func (s *Star) GenScenario(rng *rand.Rand, shape Shape, now int64) *Scn {
+	return s.GenScenarioOpt(rng, shape, now, ScnOpt{})
+}
+
+// ScnOpt overrides choices of GenScenarioOpt. A non-nil InIf/EgIf is used as
+// the AS-level ingress/egress interface whatever its link type or ownership
+// (EgIf may name an interface that is not configured at all).
+type ScnOpt struct {
+	InIf, EgIf *IfSpec
+	Kinds      []SegKind
+}
+
+// GenScenarioOpt is GenScenario with overrides; the result is a valid packet
+// only if the overrides respect the path rules.
+func (s *Star) GenScenarioOpt(rng *rand.Rand, shape Shape, now int64, opt ScnOpt) *Scn {
 	sc := &Scn{Shape: shape, SrcIA: OtherIA, DstIA: addr.MustParseIA("3-ff00:0:777")}
 	sc.SrcHost, sc.DstHost = RandHost(rng), RandHost(rng)
 	var kinds []SegKind
@@ -136,6 +150,9 @@ func (s *Star) GenScenario(rng *rand.Rand, shape Shape, now int64) *Scn {
 		kinds = kindSets[3+rng.IntN(4)]
 	default:
 		kinds = kindSets[rng.IntN(len(kindSets))]
+	}
+	if opt.Kinds != nil {
+		kinds = opt.Kinds
 	}
 	sc.Kinds = kinds
 	// segment skeletons in travel order
@@ -218,6 +235,12 @@ func (s *Star) GenScenario(rng *rand.Rand, shape Shape, now int64) *Scn {
 			own = 1
 		}
 		egIf, _ = s.pickIf(rng, egLT, own, inIf.ID)
+	}
+	if opt.InIf != nil && shape != ShSrc {
+		inIf = *opt.InIf
+	}
+	if opt.EgIf != nil && shape != ShDst {
+		egIf = *opt.EgIf
 	}
 	if shape != ShSrc {
 		sc.In = Ingress{IfID: inIf.ID}
